@@ -199,7 +199,7 @@ func main() {
 			real = append(real, o)
 		}
 	}
-	fovc.Discharge(real, fovc.SolverCfg{TimeoutS: timeout, WorkDir: *dump, Seed: seed, Cross: *tier == "thorough", Workers: 5})
+	fovc.Discharge(real, fovc.SolverCfg{TimeoutS: timeout, WorkDir: *dump, Seed: seed, Cross: *tier == "thorough", Workers: 5, Retries: 2})
 	fovc.Discharge(covers, fovc.SolverCfg{TimeoutS: 2, Seed: seed, Workers: 5})
 	if *only == "" {
 		for _, s := range cfg.Scans {
@@ -301,7 +301,9 @@ func main() {
 		exit = 1
 	}
 	wall := time.Since(t0).Seconds()
-	if *only == "" {
+	if *only == "" && os.Getenv("VERIF_NO_EVIDENCE") == "" {
+		// (VERIF_NO_EVIDENCE is set by the mutation / seeded-change scripts so that runs on a deliberately
+		// broken tree do not overwrite the evidence of the unchanged tree)
 		writeEvidence(r, cfg, nOb, nDis, solverTally, solverTime, wall, len(vios), kf, knownHit)
 	}
 	fmt.Printf("property=%s tier=%s functions=%d (+%d callees) obligations=%d discharged=%d violations=%d wall=%.1fs\n", prop, *tier, len(r.funcs), len(r.depFuncs), nOb, nDis, len(vios), wall)
